@@ -613,3 +613,186 @@ Proof.
     try (now rewrite ?orb_true_r; cbn; rewrite ?orb_true_r).
   apply ha_bytes_eqb_eq in Eu, Ep. exfalso. apply Hne. now rewrite Eu, Ep.
 Qed.
+
+(* ================================================================================================ *)
+(* routes of a proxy: construction sites (translator tables) and the model of Run *)
+From FRP Require Import Model.HttpAuthSites.
+
+Definition ha_dkind_known (d : ha_dkind) : bool := match d with DUnknownDomain _ => false | _ => true end.
+Definition ha_dkind_eqb (a b : ha_dkind) : bool :=
+  match a, b with DCustom, DCustom => true | DSubdomain, DSubdomain => true | _, _ => false end.
+
+Definition ha_site_ok (s : ha_site) : bool :=
+  ha_dkind_known (rs_domain s) &&
+  String.eqb (rs_user s) "pxy.cfg.HTTPUser" && String.eqb (rs_pass s) "pxy.cfg.HTTPPassword" &&
+  String.eqb (rs_byuser s) "pxy.cfg.RouteByHTTPUser".
+
+Definition ha_site_stmt_ok (x : ha_site_stmt) : bool :=
+  match x with SSite s => ha_site_ok s | SUnknownSite _ _ => false end.
+
+Definition ha_sites_of (l : list ha_site_stmt) : list ha_site :=
+  flat_map (fun x => match x with SSite s => [s] | SUnknownSite _ _ => [] end) l.
+
+Definition ha_site_covers (l : list ha_site_stmt) (proxy : string) (d : ha_dkind) (grouped : bool) : bool :=
+  existsb (fun s => String.eqb (rs_proxy s) proxy && ha_dkind_eqb (rs_domain s) d && Bool.eqb (rs_grouped s) grouped)
+          (ha_sites_of l).
+
+(* every construction site carries the proxy's credentials, and all eight kinds of site exist *)
+Definition ha_sites_ok (l : list ha_site_stmt) : bool :=
+  forallb ha_site_stmt_ok l &&
+  forallb (fun p => forallb (fun d => forallb (fun g => ha_site_covers l p d g) [true; false]) [DCustom; DSubdomain])
+          ["http"%string; "tcpmux"%string].
+
+Lemma ha_sites_ok_sound l :
+  ha_sites_ok l = true ->
+  (forall x, In x l -> exists s, x = SSite s) /\
+  (forall s, In s (ha_sites_of l) ->
+     rs_user s = "pxy.cfg.HTTPUser"%string /\ rs_pass s = "pxy.cfg.HTTPPassword"%string /\
+     rs_byuser s = "pxy.cfg.RouteByHTTPUser"%string /\ ha_dkind_known (rs_domain s) = true) /\
+  (forall p d g, In p ["http"%string; "tcpmux"%string] -> In d [DCustom; DSubdomain] ->
+     exists s, In s (ha_sites_of l) /\ rs_proxy s = p /\ ha_dkind_eqb (rs_domain s) d = true /\ rs_grouped s = g).
+Proof.
+  unfold ha_sites_ok. rewrite andb_true_iff. intros [H1 H2]. rewrite forallb_forall in H1. split; [|split].
+  - intros x Hx. specialize (H1 x Hx). destruct x; [eauto|discriminate].
+  - intros s Hs. unfold ha_sites_of in Hs. apply in_flat_map in Hs. destruct Hs as [x [Hx Hs]].
+    specialize (H1 x Hx). destruct x as [s'|]; [|contradiction]. destruct Hs as [<-|[]].
+    cbn in H1. unfold ha_site_ok in H1. rewrite !andb_true_iff in H1. destruct H1 as [[[Hd Hu] Hp] Hb].
+    apply String.eqb_eq in Hu, Hp, Hb. auto.
+  - intros p d g Hp Hd. rewrite forallb_forall in H2. specialize (H2 p Hp).
+    rewrite forallb_forall in H2. specialize (H2 d Hd). rewrite forallb_forall in H2.
+    assert (In g [true; false]) as Hg by (destruct g; cbn; auto). specialize (H2 g Hg).
+    unfold ha_site_covers in H2. apply existsb_exists in H2. destruct H2 as [s [Hs Hc]].
+    rewrite !andb_true_iff in Hc. destruct Hc as [[Hc1 Hc2] Hc3].
+    apply String.eqb_eq in Hc1. apply Bool.eqb_prop in Hc3. eauto.
+Qed.
+
+(* a group must compare at least these fields of a joiner with its own, and nothing the translator could not read *)
+Definition ha_group_compares_credentials (c : ha_group_compared) : bool :=
+  existsb (String.eqb "Username") c && existsb (String.eqb "Password") c &&
+  existsb (String.eqb "Domain") c && existsb (String.eqb "RouteByHTTPUser") c &&
+  forallb (fun s => match s with String "?" _ => false | _ => true end) c.
+
+Lemma ha_group_compares_credentials_sound c :
+  ha_group_compares_credentials c = true ->
+  In "Username"%string c /\ In "Password"%string c /\ In "Domain"%string c /\ In "RouteByHTTPUser"%string c.
+Proof.
+  unfold ha_group_compares_credentials. rewrite !andb_true_iff. intros [[[[H1 H2] H3] H4] _].
+  repeat split; match goal with H : existsb _ c = true |- In ?s c =>
+    idtac end.
+  - apply existsb_exists in H1. destruct H1 as [x [Hx E]]. apply String.eqb_eq in E. now subst.
+  - apply existsb_exists in H2. destruct H2 as [x [Hx E]]. apply String.eqb_eq in E. now subst.
+  - apply existsb_exists in H3. destruct H3 as [x [Hx E]]. apply String.eqb_eq in E. now subst.
+  - apply existsb_exists in H4. destruct H4 as [x [Hx E]]. apply String.eqb_eq in E. now subst.
+Qed.
+
+(* the model of Run: every route registered for a proxy, on every host (custom domains and sub-domain) and every
+   location, carries the proxy's user, password and routing user *)
+Theorem ha_px_routes_carry_credentials sdh p r :
+  In r (ha_px_routes sdh p) ->
+  rt_user r = px_user p /\ rt_pass r = px_pass p /\ rt_by_user r = px_by_user p /\ rt_id r = px_id p /\
+  In (rt_domain r) (ha_px_hosts sdh p).
+Proof.
+  unfold ha_px_routes. intros H. apply in_flat_map in H. destruct H as [d [Hd H]].
+  apply in_map_iff in H. destruct H as [loc [<- _]]. cbn. auto.
+Qed.
+
+Theorem ha_px_subdomain_route_exists sdh p :
+  px_subdomain p <> [] -> exists r, In r (ha_px_routes sdh p) /\ rt_domain r = px_subdomain p ++ ha_dot :: sdh /\
+                                    rt_user r = px_user p /\ rt_pass r = px_pass p.
+Proof.
+  intros Hne. unfold ha_px_routes, ha_px_hosts.
+  assert (ha_nonempty (px_subdomain p) = true) as ->.
+  { unfold ha_nonempty. destruct (px_subdomain p); [congruence|reflexivity]. }
+  assert (exists loc, In loc (ha_px_locations p)) as [loc Hloc].
+  { unfold ha_px_locations. destruct (px_kind p =? 0); [|exists []; cbn; auto].
+    destruct (px_locations p) as [|x t]; [exists []|exists x]; cbn; auto. }
+  eexists. split.
+  - apply in_flat_map. exists (px_subdomain p ++ ha_dot :: sdh). split; [apply in_or_app; right; cbn; auto|].
+    apply in_map_iff. exists loc. split; [reflexivity|exact Hloc].
+  - cbn. auto.
+Qed.
+
+(* ================================================================================================ *)
+(* http load-balancing groups: the clause fails for members whose credentials differ from the first member's *)
+Definition hg_b (s : string) : bytes := ha_str_bytes s.
+Definition hg_open : ha_gmember :=
+  {| gm_id := 0; gm_group := hg_b "g"; gm_key := hg_b "k"; gm_domain := hg_b "h.test"; gm_by_user := [];
+     gm_user := []; gm_pass := [] |}.
+Definition hg_locked : ha_gmember :=
+  {| gm_id := 1; gm_group := hg_b "g"; gm_key := hg_b "k"; gm_domain := hg_b "h.test"; gm_by_user := [];
+     gm_user := hg_b "alice"; gm_pass := hg_b "apw" |}.
+Definition hg_rq : ha_req :=
+  {| rq_form := FOrigin; rq_proto := PH11; rq_method := hg_b "GET"; rq_url_host := []; rq_hdr_host := hg_b "h.test";
+     rq_path := hg_b "/"; rq_auth := None; rq_pauth := None; rq_casing := 0 |}.
+
+(* witness: an unprotected proxy opens the group, a protected one joins and is admitted; a request without any
+   credentials is forwarded and the protected member is the one that serves it *)
+Theorem ha_hgrp_member_credentials_refuted :
+  exists ms rq chosen m c,
+    ha_hgrp_deliver ha_canon_or_self (fst (ha_hgrp_run false [] ms)) rq chosen = Some m /\
+    snd (ha_hgrp_run false [] ms) = [0; 0] /\
+    ha_hmember_creds m = Some c /\ ha_presented rq <> c.
+Proof.
+  exists [hg_open; hg_locked], hg_rq, 1, hg_locked, (hg_b "alice", hg_b "apw").
+  repeat split; try (vm_compute; reflexivity). vm_compute. discriminate.
+Qed.
+
+(* the clause holds for the histories in which every member has the credentials of its group's route ([ha_grp_inv]):
+   exactly the histories without a joiner whose Username / Password differ from the first member's *)
+Theorem ha_hgrp_member_receives_only_with_credentials_partial canon st rq chosen m :
+  ha_grp_inv st ->
+  ha_hgrp_deliver canon st rq chosen = Some m ->
+  ha_hmember_creds m = None \/ ha_hmember_creds m = Some (ha_presented rq).
+Proof.
+  intros Hinv. unfold ha_hgrp_deliver.
+  destruct (ha_serve_http _ _ _) as [|l| |] eqn:E; try discriminate.
+  destruct (find _ st) as [g|] eqn:Eg; [|discriminate]. intros Hm.
+  apply find_some in Eg. destruct Eg as [Hg Heq]. apply ha_route_eqb_eq in Heq.
+  apply find_some in Hm. destruct Hm as [Hm _].
+  destruct (Hinv g m Hg Hm) as [Hu Hp].
+  apply ha_serve_http_forward_implies_credentials in E. unfold ha_creds in E. unfold ha_hmember_creds.
+  rewrite Hu, Hp, Heq. exact E.
+Qed.
+
+(* with the comparison of Username and Password in place the clause holds for every history of joins *)
+Lemma ha_hgrp_join_in_inv st : forall m st' r,
+  ha_grp_inv st -> ha_hgrp_join_in true st m = Some (st', r) -> ha_grp_inv st'.
+Proof.
+  induction st as [|g t IH]; cbn; intros m st' r Hinv; [discriminate|].
+  destruct (bytes_eqb (g_name g) (gm_group m)).
+  - unfold ha_hgrp_join_existing. cbn [andb].
+    destruct (bytes_eqb (rt_user (g_route g)) (gm_user m)) eqn:Eu;
+      destruct (bytes_eqb (rt_pass (g_route g)) (gm_pass m)) eqn:Ep;
+      destruct (bytes_eqb (rt_domain (g_route g)) (gm_domain m));
+      destruct (bytes_eqb (rt_by_user (g_route g)) (gm_by_user m)); cbn;
+      try (intros [= <- _]; exact Hinv).
+    destruct (bytes_eqb (g_key g) (gm_key m)); cbn; intros [= <- _]; [|exact Hinv].
+    apply ha_bytes_eqb_eq in Eu, Ep.
+    intros g0 m0 [<-|Hg] Hm; [|apply (Hinv g0 m0); cbn; auto]. cbn in *.
+    apply in_app_or in Hm. destruct Hm as [Hm|[<-|[]]]; [apply (Hinv g m0); cbn; auto|auto].
+  - destruct (ha_hgrp_join_in true t m) as [[t' r']|] eqn:E; [|discriminate]. intros [= <- _].
+    assert (ha_grp_inv t') as Ht.
+    { eapply IH; [|exact E]. intros g0 m0 Hg Hm. apply (Hinv g0 m0); cbn; auto. }
+    intros g0 m0 [<-|Hg] Hm; [apply (Hinv g m0); cbn; auto|apply (Ht g0 m0); auto].
+Qed.
+
+Lemma ha_hgrp_run_inv ms : forall st, ha_grp_inv st -> ha_grp_inv (fst (ha_hgrp_run true st ms)).
+Proof.
+  induction ms as [|m t IH]; intros st Hinv; cbn; [assumption|].
+  assert (ha_grp_inv (fst (ha_hgrp_join true st m))) as H1.
+  { unfold ha_hgrp_join. destruct (ha_hgrp_join_in true st m) as [[st' r]|] eqn:E.
+    - cbn. eapply ha_hgrp_join_in_inv; eauto.
+    - destruct (ha_grp_conflict st m); cbn; [assumption|].
+      intros g0 m0 Hg Hm. apply in_app_or in Hg. destruct Hg as [Hg|[<-|[]]]; [apply (Hinv g0 m0); auto|].
+      cbn in Hm. destruct Hm as [<-|[]]. cbn. auto. }
+  destruct (ha_hgrp_join true st m) as [st1 r]. cbn in H1.
+  specialize (IH st1 H1). destruct (ha_hgrp_run true st1 t) as [st2 rs]. exact IH.
+Qed.
+
+Theorem ha_hgrp_member_receives_only_with_credentials_when_compared canon ms rq chosen m :
+  ha_hgrp_deliver canon (fst (ha_hgrp_run true [] ms)) rq chosen = Some m ->
+  ha_hmember_creds m = None \/ ha_hmember_creds m = Some (ha_presented rq).
+Proof.
+  apply ha_hgrp_member_receives_only_with_credentials_partial.
+  apply ha_hgrp_run_inv, ha_grp_inv_nil.
+Qed.
